@@ -1,4 +1,6 @@
 import PSO.Proofs.NodeTickObserver
+import PSO.Proofs.RaftObservers
+import PSO.Proofs.RaftDemo
 
 /-!
 # C18 — read-only nodes never vote, never lead, are never counted (node-local part)
@@ -120,5 +122,48 @@ theorem observers_join_leave (s : NodeState) (n : Nat) (hn : n ∉ s.others) :
   roEvents_keep_voters s n hn
 
 example : (7 : Nat) ∉ exLeader.others := by decide
+
+/-! ## Cluster level (`PSO.Raft.step`, node ids `≥ N` are the read-only nodes) -/
+
+/-- In every reachable state of the cluster model — any number of observers joining and leaving,
+any schedule, restarts included — a read-only node is a follower that never voted. -/
+theorem cluster_observer_is_passive {N : Nat} {s : PSO.Raft.State} (h : PSO.Raft.Reachable N s) {n : Nat}
+    (hn : N ≤ n) :
+    (s.nodes n).role = .follower ∧ (s.nodes n).votedFor = none ∧ ∀ t, s.g.voted t n = none :=
+  PSO.Raft.observer_is_passive h hn
+
+/-- Election and commit quorums never contain a read-only node … -/
+theorem cluster_observer_in_no_quorum {N : Nat} {Q : List Nat} (hQ : PSO.Raft.IsQuorum N Q) {n : Nat}
+    (hn : N ≤ n) : n ∉ Q :=
+  PSO.Raft.observer_in_no_quorum hQ hn
+
+/-- … and the leader's commit rule is independent of what observers acknowledged. -/
+theorem cluster_commit_rule_ignores_observers (N n : Nat) (mi mi' : Nat → Nat) (i : Nat)
+    (hsame : ∀ k, k < N → mi k = mi' k) :
+    PSO.Raft.matchCount N n mi i = PSO.Raft.matchCount N n mi' i :=
+  PSO.Raft.matchCount_ignores_observers N n mi mi' i hsame
+
+/-- An observer converges to the same state as the voters as far as safety goes: what it has applied
+is, position by position, what every other node (voter or observer) has applied. -/
+theorem cluster_observer_applies_common_sequence {N : Nat} {s1 s2 : PSO.Raft.State}
+    {as : List PSO.Raft.Action} (h1 : PSO.Raft.Reachable N s1) (hr : PSO.Raft.run N s1 as = some s2)
+    (o v p : Nat) (hpo : p ≤ (s1.nodes o).applied) (hpv : p ≤ (s2.nodes v).applied) :
+    (s1.nodes o).log[p]? = (s2.nodes v).log[p]? := by
+  have i1 := PSO.Raft.inv_reachable h1
+  have i2 := PSO.Raft.inv_run i1 hr
+  exact PSO.Raft.committed_agree h1 hr o v p (Nat.le_trans hpo (i1.a o)) (Nat.le_trans hpv (i2.a v))
+
+/-- Non-vacuity: an observer (node 3 of a 3-voter cluster) that received the leader's entries. -/
+example : ∃ s, PSO.Raft.Reachable 3 s ∧ (s.nodes 3).log.length = 3 ∧ (s.nodes 3).role = .follower := by
+  have h : ((PSO.Raft.run 3 PSO.Raft.init (PSO.Raft.demoActs ++
+      [.sendAppend 0 3 0 2 2, .recvAppend 3 (.append 1 0 3 0 0 [⟨1, 0⟩, ⟨1, 7⟩] 2)])).map
+      (fun s => ((s.nodes 3).log.length, decide ((s.nodes 3).role = .follower)))) = some (3, true) := by
+    decide +kernel
+  cases hr : PSO.Raft.run 3 PSO.Raft.init (PSO.Raft.demoActs ++
+      [.sendAppend 0 3 0 2 2, .recvAppend 3 (.append 1 0 3 0 0 [⟨1, 0⟩, ⟨1, 7⟩] 2)]) with
+  | none => rw [hr] at h; cases h
+  | some s =>
+    rw [hr] at h; simp at h
+    exact ⟨s, PSO.Raft.reachable_iff_run.mpr ⟨_, hr⟩, h.1, h.2⟩
 
 end PSO.C18
